@@ -40,13 +40,14 @@ type token struct {
 }
 
 type driver struct {
-	w      *world.World
-	abi    abi.ABI
-	toks   []token
-	mod    sdk.AccAddress
-	modHex common.Address
-	tier   string
-	burned []sdkmath.Int // model: coin-pair tokens burned by holders, per depth
+	w           *world.World
+	abi         abi.ABI
+	toks        []token
+	mod         sdk.AccAddress
+	modHex      common.Address
+	tier        string
+	burned      []sdkmath.Int // model: coin-pair tokens burned by holders, per depth
+	atestSupply sdkmath.Int
 }
 
 var transferSig = crypto.Keccak256Hash([]byte("Transfer(address,address,uint256)"))
@@ -55,10 +56,10 @@ var transferSig = crypto.Keccak256Hash([]byte("Transfer(address,address,uint256)
 func fakeLogCode(module common.Address) []byte {
 	a := evmasm.New()
 	a.PushU(1000).PushU(0).Op(evmasm.MSTORE)
-	a.PushAddr(module)                 // topic2: to
-	a.Op(evmasm.CALLER)                // topic1: from
-	a.PushBytes(transferSig.Bytes())   // topic0
-	a.PushU(32).PushU(0)               // size, offset
+	a.PushAddr(module)               // topic2: to
+	a.Op(evmasm.CALLER)              // topic1: from
+	a.PushBytes(transferSig.Bytes()) // topic0
+	a.PushU(32).PushU(0)             // size, offset
 	a.Op(evmasm.LOG3)
 	a.PushU(0).PushU(0).Op(evmasm.MSTORE)
 	a.PushU(32).PushU(0).Op(evmasm.RETURN)
@@ -374,7 +375,10 @@ func (d *driver) invariant(w *world.World, p []string, res *engine.Result) {
 			if tot.GT(esc) {
 				d.viol(res, t, "inv", "unbacked", "ERC20 total supply exceeds the coins escrowed in the module account", p, map[string]any{"total_supply": tot.String(), "escrow": esc.String()})
 			}
-			burned := d.burned[len(p)]
+			burned := sdkmath.ZeroInt()
+			if t.name == "coin" {
+				burned = d.burned[len(p)]
+			}
 			if !esc.Sub(tot).Equal(burned) {
 				d.viol(res, t, "inv", "escrow-mismatch", "escrow minus ERC20 supply differs from what holders burned", p, map[string]any{"total_supply": tot.String(), "escrow": esc.String(), "holder_burns": burned.String()})
 			}
@@ -400,6 +404,22 @@ func Worker(shard, n int, tier string) *engine.Result {
 	e := &engine.Explorer{W: d.w, Res: res, Stores: []string{"bank", "erc20", "evm"}, Ops: d.ops, Invariant: d.invariant, MaxDepth: bounds(tier),
 		Shard: shard, NShards: n, Deadline: time.Now().Add(25 * time.Minute), NoDedup: true}
 	e.Run()
+	// part B: IBC legs
+	di := newIBCDriver(tier)
+	sub := engine.NewResult(Prop)
+	depthB := 4
+	if tier == "thorough" {
+		depthB = 5
+	}
+	eb := &engine.Explorer{W: di.w, Res: sub, Stores: []string{"bank", "erc20", "evm", "ibc", "transfer"}, Ops: di.ops, Invariant: di.invariant, MaxDepth: depthB,
+		Shard: shard, NShards: n, Deadline: time.Now().Add(25 * time.Minute), NoDedup: true}
+	eb.Run()
+	res.Counters["partB_transitions"] += int64(sub.Transitions)
+	for k, v := range sub.States {
+		res.States["B|"+k] = v
+	}
+	sub.States = map[string]int{}
+	res.Merge(sub)
 	return res
 }
 
@@ -410,10 +430,10 @@ func Run(tier string) int {
 	res.Sample(map[string]any{"path": []string{"convertERC20(directmanip,half)", "transferToModule(honest,all)"}})
 	return engine.Finish(res, engine.Meta{
 		Property: Prop, Tier: tier, Level: "model_checking", Start: start,
-		Rule: "all sequences <= depth over 57 operations: for each of 5 pairs (coin-origin; ERC20-origin honest / malicious-delayed / direct-balance-manipulation / fake-Transfer-log) convertCoin and convertERC20 with {1, half, all, all+1}, ERC20 transfer to the module address (hook path) with {1, all}, bank send of the paired denomination, pair toggle; plus a holder burn; backing invariants after every operation, exact-or-nothing step oracle; non-trivial = successful conversion distinct by (path, token, amount class)",
+		Rule:   "all sequences <= depth over 57 operations: for each of 5 pairs (coin-origin; ERC20-origin honest / malicious-delayed / direct-balance-manipulation / fake-Transfer-log) convertCoin and convertERC20 with {1, half, all, all+1}, ERC20 transfer to the module address (hook path) with {1, all}, bank send of the paired denomination, pair toggle; plus a holder burn; backing invariants after every operation, exact-or-nothing step oracle; part B: all sequences <= 4 (thorough 5) over 30 operations on a fixture with a sixth pair (the IBC voucher of the coin-origin denomination): ibcSend of {coin-origin, voucher going home, ERC20-origin} x {1, all of coins+tokens, all+1} to a valid / garbage receiver, ibcRecv, ack, timeout, convertCoin / convertERC20 of both users, pair toggles - the sender's coins+tokens fall by exactly the amount and the channel escrow grows / the voucher supply falls by it, the recipient's coins+tokens of the arriving denomination rise by exactly the amount, an error acknowledgement or timeout gives the sender exactly the amount back, every rejected step changes nothing, backing invariants and constant supply of the coin-origin denomination in every state; non-trivial = successful conversion distinct by (path, token, amount class)",
 		Bounds: map[string]any{"depth": bounds(tier)},
 		Assumptions: []string{
-			"IBC receive / acknowledgement / timeout callbacks are not in the alphabet (no channel fixture)",
+			"IBC legs (part B) run over two transfer channel ends written on ibc-go's sentinel localhost connection: packets loop back to the same chain through the real MsgTransfer wrapper, MsgRecvPacket, MsgAcknowledgement and MsgTimeout handlers; at most one packet is in flight",
 			"the fake-log token is registered by writing the pair directly (what a passed RegisterERC20 proposal stores); its code is synthesised bytecode",
 			"messages through the msg-service router on cache contexts; Ethereum transactions through DeliverTx with gas price 0",
 		},
